@@ -9,7 +9,8 @@
      ctx      = (cf_mode ((sing plur def) ...))
      extra    = ((body lres-value) ...)        evaluator oracle entries
    No proofs here. *)
-From FendV Require Import Base.Prelude Units.Defs Units.Algebra Units.Lookup Units.Index Units.Table Units.Dim.
+From FendV Require Import Base.Prelude Units.Defs Units.Algebra Units.Lookup Units.Index Units.Table Units.Dim Units.Simplify.
+From FendV Require Import Units.Generated.UnitTable.
 From Coq Require Import QArith.
 Close Scope Q_scope.
 Open Scope N_scope.
@@ -255,6 +256,16 @@ Definition run_units : dispatcher := fun op args =>
     | [XA d; e] =>
       match as_uexpr (Z.to_nat d) e with
       | Some e => Some (XL [sx_res sx_value (meval model_resolve e); sx_bool true])
+      | None => Some sx_bad
+      end
+    | _ => Some sx_bad
+    end
+  else if opeq op "simplify" then
+    (* (simplify value) : Value::simplify with the default-unit table of the tree *)
+    match args with
+    | [v] =>
+      match as_value v with
+      | Some v => Some (sx_res sx_value (simplify model_resolve gen_defaults v))
       | None => Some sx_bad
       end
     | _ => Some sx_bad
